@@ -12,6 +12,8 @@ for f in ours.get("findings", []) + theirs.get("findings", []):
     if f["id"] not in seen:
         seen.add(f["id"]); out.append(f)
 fixed = list(dict.fromkeys(ours.get("fixed", []) + theirs.get("fixed", [])))
-d = {"_format": ours.get("_format") or theirs.get("_format", ""), "findings": out, "fixed": fixed}
+closed = list(dict.fromkeys(ours.get("closed_ids", []) + theirs.get("closed_ids", [])))
+out = [f for f in out if f["id"] not in closed]
+d = {"_format": ours.get("_format") or theirs.get("_format", ""), "findings": out, "fixed": fixed, "closed_ids": closed}
 json.dump(d, open("known_findings.json", "w"), indent=1)
 print(len(out), "findings,", len(fixed), "fixed")
